@@ -3,7 +3,7 @@ from lib import semcheck, progs, progs_shapes
 from lib.semcheck import impl, model_expr, compare, oracle, describe, shrink, IMPORTS
 
 ID = 'C09'
-THEOREMS = ['C09_compiled_program_computes_reference', 'C09_builtin_extensional', 'C09_call_spec_compound', 'C09_call_spec_atom', 'C09_once_spec', 'C09_findall_spec', 'C09_findall_one_instance_per_answer', 'C09_findall_instances', 'C09_findall_at_most_once', 'C09_eq_spec', 'C09_neq_spec']
+THEOREMS = ['C09_compiled_program_computes_reference', 'C09_builtin_extensional', 'C09_call_spec_compound', 'C09_call_spec_atom', 'C09_once_spec', 'C09_findall_spec', 'C09_findall_one_instance_per_answer', 'C09_findall_instances', 'C09_findall_at_most_once', 'C09_findall_shares_caller_variables', 'C09_eq_spec', 'C09_neq_spec']
 CASE_TIMEOUT = 60
 MODEL_NEEDS_IMPL = True
 COQ_CHUNK = 20
@@ -11,11 +11,14 @@ RULE = ('random programs whose bodies use call/1..N (extra arguments), once/1, f
         'through one or two bound variables, atoms or compound goals, with 0/1/many solutions, as first/middle/last goal, under \\+ and inside '
         'if-then-else, with templates that share variables with the goal and repeated variables in \\= ; compared as C01 (the builtins are part '
         'of both Coq semantics). Non-trivial: a builtin is called with a goal that arrives through a variable or has extra arguments or has no '
-        'solution, and some query has an answer.')
+        'solution, and some query has an answer. Plus program shapes of lib/progs_shapes.py: clause-local variables that occur first in an = goal '
+        '(either side) inside a condition / negation / disjunction branch / once / call / findall, followed there by a goal that may fail, and '
+        'used again in the else branch or after the construct (all locals exported through the head); findall/3 with a closed or partial '
+        'list as bag that shares variables with the goal, the template or an instance.')
 TRUSTED_BASE = []
 
-N_FIRST = {'quick': 40, 'thorough': 600}
-N_BAG = {'quick': 30, 'thorough': 400}
+N_FIRST = {'quick': 40, 'thorough': 400}
+N_BAG = {'quick': 30, 'thorough': 300}
 
 def impl(case):
     io = semcheck.impl(case)
@@ -93,4 +96,12 @@ def nontrivial(case, io):
     return bool(cs & {'call:call', 'call:once', 'call:findall'})
 
 def distribution(cases, obs):
-    return semcheck.stats(cases, obs)
+    d = semcheck.stats(cases, obs)
+    shapes = {}
+    for c in cases:
+        k = c.get('shape', 'layered')
+        shapes[k] = shapes.get(k, 0) + 1
+    d['program_shapes'] = shapes
+    d['queries_where_findall_collected_an_unbound_variable_of_the_caller'] = sum(
+        1 for o in obs if isinstance(o, dict) and 'queries' in o for q in o['queries'] if q.get('findall_outer'))
+    return d
